@@ -15,7 +15,7 @@ theorem IdSer.good (hS : NumRT E) (hD : DynId dyn N) : (c : Conv) → IdSer c = 
   | .tuple cs, h => id_tuple (IdSer.goods hS hD cs (by simpa only [IdSer] using h))
   | .cond inner _ _, h => id_cond (IdSer.good hS hD inner (by simpa only [IdSer] using h))
   | .any, h | .datetime _, h | .union _, h | .tagged .., h | .struct .., h | .dict .., h | .seq .., h
-  | .enum .., h | .delegate .., h | .pattern .., h | .pane .., h | .nested _, h | .custom _, h => by
+  | .enum .., h | .delegate .., h | .pattern .., h | .pane .., h | .nested _, h | .custom _, h | .vol _, h => by
     simp only [IdSer] at h; cases h
 theorem IdSer.goods (hS : NumRT E) (hD : DynId dyn N) : (cs : List Conv) → IdSers cs = true →
     IdGoods E dyn N cs
@@ -53,7 +53,7 @@ theorem RTSafe.good (hS : ScalarRT E) (hD : DynId dyn N) : (c : Conv) → RTSafe
     simp only [RTSafe, Bool.and_eq_true, beq_iff_eq] at h
     exact rt_pane h.1.1 h.1.2 (RTSafe.goods hS hD cs h.2)
   | .tagged .., h | .struct .., h | .enum .., h | .delegate .., h | .pattern .., h | .nested _, h
-  | .custom _, h => by simp only [RTSafe] at h; cases h
+  | .custom _, h | .vol _, h => by simp only [RTSafe] at h; cases h
 theorem RTSafe.goods (hS : ScalarRT E) (hD : DynId dyn N) : (cs : List Conv) → RTSafes cs = true →
     RTGoods E dyn N cs
   | [], _ => fun _ h => nomatch h
@@ -70,7 +70,7 @@ end
 mutual
 /-- no `union`, no dataclass: nothing to check per value -/
 def plainConv : Conv → Bool
-  | .union _ | .pane _ _ => false
+  | .union _ | .pane _ _ | .vol _ => false   -- (`.vol`: a union of two members; outside `RTSafe` anyway)
   | .seq _ vc => plainConv vc
   | .tuple cs => plainConvs cs
   | .dict _ k v => plainConv k && plainConv v
@@ -83,7 +83,7 @@ end
 
 mutual
 theorem RTOk_plain : (c : Conv) → plainConv c = true → ∀ x, RTOk E dyn c x
-  | .union _, h, _ | .pane _ _, h, _ => by simp only [plainConv] at h; cases h
+  | .union _, h, _ | .pane _ _, h, _ | .vol _, h, _ => by simp only [plainConv] at h; cases h
   | .seq _ vc, h, x => by
     simp only [RTOk]; intro y _; exact RTOk_plain vc (by simpa only [plainConv] using h) y
   | .tuple cs, h, x => by
